@@ -175,7 +175,10 @@ fn compute_one_level(
         for u in &shuffled_nodes {
             let mut best_mod = 0.0;
             let mut best_com: usize = *node2com.get(u).unwrap();
-            let weights2com = get_neighbor_weights(graph, u, nbrs, &node2com);
+            let mut weights2com = get_neighbor_weights(graph, u, nbrs, &node2com);
+            if graph.specs.directed {
+                add_in_neighbor_weights(graph, u, &node2com, &mut weights2com);
+            }
             subtract_degree_from_best_com(best_com, u, &mut deg_info, graph.specs.directed);
             #[rustfmt::skip]
             update_best_com(&mut best_com, &mut best_mod, weights2com, &deg_info, m, resolution, graph.specs.directed);
@@ -466,6 +469,28 @@ where
         // *acc.get_mut(node2com.get(v).as_ref().unwrap()).unwrap() += edge.weight;
         acc
     })
+}
+
+/// For a directed graph adds the weights of the edges from the predecessors of `u`
+/// to the neighbor-community weights of `u`.
+fn add_in_neighbor_weights<T, A>(
+    graph: &Graph<T, A>,
+    u: &T,
+    node2com: &HashMap<T, usize>,
+    weights2com: &mut HashMap<usize, f64>,
+) where
+    T: Hash + Eq + Clone + Ord + Display + Send + Sync,
+    A: Clone + Send + Sync,
+{
+    if let Some(preds) = graph.get_predecessors_map().get(u) {
+        for v in preds.iter().sorted() {
+            if u == v {
+                continue;
+            }
+            let edge = graph.get_edge(v.clone(), u.clone()).unwrap();
+            *weights2com.entry(*node2com.get(v).unwrap()).or_insert(0.0) += edge.weight;
+        }
+    }
 }
 
 /// Creates the initial mapping of node names in the `graph` to
